@@ -465,6 +465,48 @@ pub fn padded_program(idx: u64) -> Program {
         }
         v
     };
+    // second padding style: statements of many instruction forms (indexed by X / Y / constant,
+    // through a pointer, 16-bit, read-modify-write, from ROM) whose sizes this generator does
+    // not know: a size the compiler gets wrong for one form moves the true distance of the
+    // enclosing branch away from the distance check_branches() computed
+    let forms = idx % 2 == 1;
+    let mut pad_forms = |rng: &mut Rng, bytes: i64| -> Vec<Stmt> {
+        let mut v = Vec::new();
+        let n = (bytes / 5).max(4);
+        let idx8 = |rng: &mut Rng| match rng.below(3) {
+            0 => Expr::Lv(LV::X),
+            1 => Expr::Lv(LV::Y),
+            _ => Expr::Num(rng.below(8) as i32),
+        };
+        v.push(Stmt::Expr(Expr::Assign(LV::X, Box::new(Expr::Num(rng.below(8) as i32)))));
+        v.push(Stmt::Expr(Expr::Assign(LV::Y, Box::new(Expr::Num(rng.below(8) as i32)))));
+        for _ in 0..n {
+            let i = idx8(rng);
+            let st = match rng.below(12) {
+                0 => Expr::Assign(LV::Idx(ARR, Box::new(i)), Box::new(lvv(A))),
+                1 => Expr::Assign(LV::Var(R), Box::new(Expr::Lv(LV::Idx(ARR, Box::new(i))))),
+                2 => Expr::Assign(LV::Var(R), Box::new(Expr::Lv(LV::Idx(TAB, Box::new(i))))),
+                3 => Expr::Assign(LV::Var(R), Box::new(Expr::Lv(LV::PtrIdx(P, Box::new(Expr::Lv(LV::Y)))))),
+                4 => Expr::Assign(LV::PtrIdx(P, Box::new(Expr::Lv(LV::Y))), Box::new(lvv(BV))),
+                5 => Expr::Assign(LV::Var(S), Box::new(Expr::Bin(BinOp::Add, Box::new(lvv(T)), Box::new(lvv(U))))),
+                6 => Expr::IncDec { lv: LV::Idx(ARR, Box::new(Expr::Lv(LV::X))), post: true, inc: rng.chance(1, 2) },
+                7 => Expr::OpAssign(*rng.pick(&[BinOp::Add, BinOp::And, BinOp::Or, BinOp::Xor]), LV::Var(R), Box::new(Expr::Lv(LV::Idx(ARR, Box::new(i))))),
+                8 => Expr::OpAssign(if rng.chance(1, 2) { BinOp::Shl } else { BinOp::Shr }, LV::Var(S), Box::new(Expr::Num(1))),
+                9 => Expr::IncDec { lv: LV::Var(S), post: true, inc: true },
+                10 => Expr::Assign(LV::Var(V), Box::new(lvv(SA))),
+                _ => Expr::Assign(LV::Var(R), Box::new(Expr::Bin(BinOp::Sub, Box::new(lvv(A)), Box::new(Expr::Lv(LV::Idx(ARR, Box::new(i))))))),
+            };
+            v.push(Stmt::Expr(st));
+        }
+        v
+    };
+    let mut pad = |rng: &mut Rng, bytes: i64| -> Vec<Stmt> {
+        if forms && bytes >= 60 {
+            pad_forms(rng, bytes)
+        } else {
+            pad(rng, bytes)
+        }
+    };
     let mut body = vec![assign(LV::Var(P), Expr::AddrOf(ARR))];
     let n = rng.range(1, 3);
     for _ in 0..n {
